@@ -232,6 +232,8 @@ type CRLSrc struct {
 	StubExtraDelta bool // stub returns a delta although the base advertises none
 	XBase          []*Exchange
 	XDelta         [][]*Exchange
+	Second         int         // what the distribution point answers to a SECOND request for the base within one check (a lagging mirror catching up): 0 nothing planned, 1 an authentic current list without the certificate, 2 an authentic current list that revokes it
+	XBase2         []*Exchange // per caller; nil entries when nothing is planned
 	// cache pre-seed (real fetcher with cache)
 	CacheSeed  int // 0 none, 1 fresh authentic copy, 2 expired copy, 3 poisoned (wrong signer) fresh copy, 4 no-nextUpdate copy
 	CacheGetEr bool
